@@ -1456,7 +1456,8 @@ def run_options(ctx, cs0, ref):
             except Exception:
                 acc = False
             case = {"setting": st.name, "options now": [repr(o) for o in cur][:12], "enforced": enforced, "raw": repr(raw), "stage": tag,
-                    "previous": repr(prev)}
+                    "previous": repr(prev), "default": repr(st.default), "defined with": [repr(o) for o in getattr(st, "_c17_defined", [])],
+                    "additions": [[repr(o) for o in a] for a in getattr(st, "_c17_added", [])]}
             if acc != want:
                 ctx.fail("option-outside-list-accepted" if acc else "legal-option-rejected",
                          "values outside a setting's (current, possibly plugin-extended) option list are rejected, its options are accepted",
@@ -1487,6 +1488,7 @@ def run_options(ctx, cs0, ref):
     ctx.count("settings with option lists (registry)", len([x for x in specs if not x[0].startswith("gen")]))
     for name, default, options, enforced in specs:
         st = fresh_setting(name, default, options, enforced)
+        st._c17_defined, st._c17_added = list(options), []
         str_pool = [o for o in pool if o not in options]
         table(st, "as defined", [])
         rounds = rng.choice([1, 2, 3])
@@ -1503,6 +1505,7 @@ def run_options(ctx, cs0, ref):
             else:
                 for o in new:
                     st.addOption(S.Option(o, name))
+            st._c17_added.append(list(new))
             if list(st.options)[-len(new):] != new:
                 ctx.fail("options-not-extended", "added options join the setting's option list", {"setting": name, "added": new}, observed=list(st.options)[-6:])
             table(st, f"after addition {r + 1} of {new}", legal_before + new)
@@ -2359,6 +2362,57 @@ def replay_script(ctx, payload, case):
     return [{"key": f.key, "case": f.case, "observed": f.observed, "expected": f.expected} for f in sub.failures if f.key not in known][:5]
 
 
+def replay_options(ctx, payload, case):
+    """Re-run one entry of the option tables: rebuild the setting as defined, add the recorded options, try the value."""
+    from armi import getPluginManagerOrFail, plugins, settings
+    from armi.settings import setting as S
+    lit = lambda r: eval(r, {"__builtins__": {}}, {})  # noqa: S307 - literals written by this harness
+    raw = lit(case["raw"])
+    res = []
+    with mute():
+        if "options now" in case:
+            st = S.Setting(case["setting"], default=lit(case["default"]), description="replay", options=[lit(o) for o in case["defined with"]],
+                           enforcedOptions=case["enforced"])
+            for add in case["additions"]:
+                st.addOptions([S.Option(lit(o), case["setting"]) for o in add])
+            cur = list(st.options)
+            try:
+                st.setValue(raw)
+                acc = True
+            except Exception:
+                acc = False
+            if case["enforced"] and cur and acc != (raw in cur):
+                res.append({"options": cur, "raw": raw, "observed": "accepted" if acc else "rejected"})
+        elif case.get("setting") == "neutronicsKernel":
+            opts = list(case["options"])
+
+            class C17ReplayPlugin(plugins.ArmiPlugin):
+                @staticmethod
+                @plugins.HOOKIMPL
+                def defineSettings():
+                    return [S.Option(o, "neutronicsKernel") for o in opts]
+            pm = getPluginManagerOrFail()
+            pm.register(C17ReplayPlugin)
+            try:
+                cs = settings.Settings()
+                cs["neutronicsKernel"] = case["previous"]
+                try:
+                    if case.get("route") == "read":
+                        cs.loadFromString(yaml_text({"neutronicsKernel": raw}), handleInvalids=False)
+                    elif case.get("route") == "modified":
+                        cs.modified(newSettings={"neutronicsKernel": raw})
+                    else:
+                        cs["neutronicsKernel"] = raw
+                    acc = True
+                except Exception:
+                    acc = False
+                if acc != (raw in opts):
+                    res.append({"options": opts, "raw": raw, "route": case.get("route"), "observed": "accepted" if acc else "rejected"})
+            finally:
+                pm.unregister(C17ReplayPlugin)
+    return res
+
+
 def replay(ctx, payload):
     """Re-evaluate a recorded failing input on the real code."""
     from armi import settings
@@ -2366,6 +2420,8 @@ def replay(ctx, payload):
     res = []
     if case.get("script"):
         return replay_script(ctx, payload, case)
+    if "options now" in case or str(payload.get("key", "")).startswith(("option-outside-list-accepted:", "legal-option-rejected:")):
+        return replay_options(ctx, payload, case)
     with mute(), common.scratch_dir("c17r-"):
         cs = settings.Settings()
         assigns = case.get("assigns") or ([(case["setting"], case["raw"])] if "raw" in case and "setting" in case else [])
